@@ -44,7 +44,7 @@ CHECKS = {
     "C09": dict(
         category="model_checking",
         technique="bounded-exhaustive enumeration of tree shapes x all accessor orders on one tree object against a reference fold",
-        text="Every sequence of <= 3 (thorough 4) atoms over text/non-ASCII text/empty text/bytes/bit leaves/4-bit and 8-bit runs x every nesting into <= 3 levels x all 24 orders of str/bytes/to_bits/int on the same tree object; each result is compared with RefValue, must not depend on nesting or accessor order, and the tree and every Terminal value object must be unchanged afterwards.",
+        text="Every sequence of <= 3 atoms (thorough: nesting depth 3, plus every sequence of 4 atoms over a core of six) over text/non-ASCII text/empty text/bytes/bit leaves/4-bit and 8-bit runs x every nesting into <= 3 levels x all 24 orders of str/bytes/to_bits/int on the same tree object; each result is compared with RefValue, must not depend on nesting or accessor order, and the tree and every Terminal value object must be unchanged afterwards.",
         note="Trusted: RefValue in mc/checks/c09.py written from the property statement. Two deviations are recorded known findings.",
         design="4 C09",
     ),
